@@ -77,3 +77,12 @@ theorem rdm1_hermitian {ds1 ds2 : List ℕ} {d m k : ℕ} (a : Chain R ds1 1 m) 
   simp only [star_sum, star_mul', star_star, mul_comm]
 
 end RenoVerif.Chain
+
+namespace RenoVerif.Chain
+variable {R : Type} [CommRing R] [StarRing R]
+/-- non-vacuity: an empty left part has the identity as environment -/
+example (l : ℕ) : gramL (R := R) (Chain.nil l) = 1 := by
+  unfold gramL
+  show ∑ c : Unit, _ = _
+  simp [amp]
+end RenoVerif.Chain
